@@ -235,6 +235,10 @@ SWAPS3 = {
     # Eu <-> As: 'nuEu0/nuEu: population 2', 'nuAs0/nuAs: population 3', 'mAfEu: between 1 and 2', 'mAfAs: between 1 and 3'
     'D3.out_of_africa': ((0, 2, 1), {'nuEu0': 'nuAs0', 'nuAs0': 'nuEu0', 'nuEu': 'nuAs', 'nuAs': 'nuEu', 'mAfEu': 'mAfAs', 'mAfAs': 'mAfEu'}),
     # three populations created at the same moment, no migration: any relabelling
+    # population 3 = admixture of 1 (fraction f) and 2: exchanging 1 and 2 exchanges nu1/nu2, the rates with population 3, and f <-> 1-f
+    'D3.admix_origin_no_mig': ((1, 0, 2), {'nu1': 'nu2', 'nu2': 'nu1', 'f': '1-f'}),
+    'D3.admix_origin_sym_mig_adj': ((1, 0, 2), {'nu1': 'nu2', 'nu2': 'nu1', 'm2': 'm3', 'm3': 'm2', 'f': '1-f'}),
+    'D3.admix_origin_uni_mig_adj': ((1, 0, 2), {'nu1': 'nu2', 'nu2': 'nu1', 'm32': 'm31', 'm31': 'm32', 'f': '1-f'}),
     'D3.sim_split_no_mig': ((1, 2, 0), {'nu1': 'nu2', 'nu2': 'nu3', 'nu3': 'nu1'}),
     'D3.sim_split_no_mig_size': ((2, 0, 1), {'nu1a': 'nu3a', 'nu2a': 'nu1a', 'nu3a': 'nu2a', 'nu1b': 'nu3b', 'nu2b': 'nu1b', 'nu3b': 'nu2b'}),
 }
